@@ -141,6 +141,19 @@ type C09DockerCase struct {
 	StepMs  int64     `json:"step_ms"`
 	Steps   int       `json:"steps"`
 	Fn      string    `json:"fn"` // count_over_time | rate | bytes_over_time
+	// SubNs moves the whole grid by a fraction of a millisecond, JitterNs[i] the lines of
+	// container i (both below a millisecond, so still no line on a window edge): instants are
+	// nanoseconds, whatever precision results are reported with.
+	SubNs    int64   `json:"sub_ns,omitempty"`
+	JitterNs []int64 `json:"jitter_ns,omitempty"`
+}
+
+func (c C09DockerCase) lineTS(base int64, i int, off int64) int64 {
+	ts := base + off*1e6
+	if i < len(c.JitterNs) {
+		ts += c.JitterNs[i]
+	}
+	return ts
 }
 
 func c09DockerCheck(c C09DockerCase) (r evid.Result) {
@@ -151,12 +164,12 @@ func c09DockerCheck(c C09DockerCase) (r evid.Result) {
 	for i, offs := range c.Ctrs {
 		var lines []dl.Line
 		for j, o := range offs {
-			lines = append(lines, dl.Line{TS: base + o*1e6, Msg: fmt.Sprintf("c%d line %d", i, j)})
+			lines = append(lines, dl.Line{TS: c.lineTS(base, i, o), Msg: fmt.Sprintf("c%d line %d", i, j)})
 		}
 		d.Containers = append(d.Containers, dl.Ctr(fmt.Sprintf("id%d", i), fmt.Sprintf("c%d", i), nil, lines))
 	}
 	query := fmt.Sprintf("sum by (container) (%s({}[%dms]))", c.Fn, c.RangeMs)
-	start, step := base+c.StartMs*1e6, c.StepMs*1e6
+	start, step := base+c.StartMs*1e6+c.SubNs, c.StepMs*1e6
 	end := start + int64(c.Steps)*step
 	want := map[string]map[int64]float64{}
 	ended := map[int]bool{}
@@ -165,12 +178,12 @@ func c09DockerCheck(c C09DockerCase) (r evid.Result) {
 		for i, offs := range c.Ctrs {
 			n, bytes := 0, 0
 			for j, o := range offs {
-				if ts := base + o*1e6; ts >= T-c.RangeMs*1e6 && ts <= T {
+				if ts := c.lineTS(base, i, o); ts >= T-c.RangeMs*1e6 && ts <= T {
 					n++
 					bytes += len(fmt.Sprintf("c%d line %d", i, j))
 				}
 			}
-			if len(offs) > 0 && base+offs[len(offs)-1]*1e6 < T {
+			if len(offs) > 0 && c.lineTS(base, i, offs[len(offs)-1]) < T {
 				ended[i] = true
 			}
 			if n == 0 {
@@ -234,6 +247,24 @@ func c09DockerGen(t *rapid.T) C09DockerCase {
 	c.StepMs = rapid.SampledFrom([]int64{2, 4, 6, 10, 20, 50, 100}).Draw(t, "step")
 	c.Steps = rapid.IntRange(0, 40).Draw(t, "steps")
 	c.Fn = rapid.SampledFrom([]string{"count_over_time", "count_over_time", "rate", "bytes_over_time"}).Draw(t, "fn")
+	if rapid.IntRange(0, 2).Draw(t, "sub-millisecond") == 0 {
+		frac := []int64{0, 1, 300e3, 400e3, 500e3, 600e3, 999999}
+		c.SubNs = rapid.SampledFrom(frac).Draw(t, "grid-fraction")
+		for i := range c.Ctrs {
+			j := rapid.SampledFrom(frac).Draw(t, "line-fraction")
+			c.JitterNs = append(c.JitterNs, j)
+			// With another fraction than the grid's, a line may sit on an even millisecond as well:
+			// within a fraction of a millisecond of a window edge, never on it.
+			if j != c.SubNs {
+				for k := range c.Ctrs[i] {
+					if rapid.Bool().Draw(t, "near-an-edge") {
+						c.Ctrs[i][k]--
+					}
+				}
+				sort.Slice(c.Ctrs[i], func(a, b int) bool { return c.Ctrs[i][a] < c.Ctrs[i][b] })
+			}
+		}
+	}
 	return c
 }
 
